@@ -982,6 +982,18 @@ func dependsOnOriginName(v ssa.Value, seen map[ssa.Value]bool, depth int) ssa.Va
 		if g := x.Call.StaticCallee(); g != nil && g.Name() == "unpadOriginName" {
 			return x
 		}
+		// a module helper that performs the table lookup is the lookup
+		if g := x.Call.StaticCallee(); g != nil && g.Blocks != nil && InModule(g) {
+			for _, b := range g.Blocks {
+				for _, in := range b.Instrs {
+					if lk, ok := in.(*ssa.Lookup); ok {
+						if _, isMap := lk.X.Type().Underlying().(*types.Map); isMap {
+							return nil
+						}
+					}
+				}
+			}
+		}
 	case *ssa.Field:
 		if st, ok := x.X.Type().Underlying().(*types.Struct); ok && st.Field(x.Field).Name() == "paddedOrigin" {
 			return x
